@@ -33,6 +33,7 @@ type WorkerSummary struct {
 	Steps       int                       `json:"steps"`
 	Samples     []sim.RunResult           `json:"samples"`
 	Hashes      map[string]string         `json:"hashes"` // run index -> trace hash (sample)
+	RacyRuns    int                       `json:"racy_runs"`
 	ReplayPairs int                       `json:"replay_pairs"`
 	ReplayDiv   []string                  `json:"replay_divergences,omitempty"`
 	WallS       float64                   `json:"wall_s"`
@@ -321,7 +322,9 @@ func TestWorker(t *testing.T) {
 			sum.NonTrivial++
 			distinct[res.DecHash] = struct{}{}
 		}
-		if len(sum.Hashes) < hashSample {
+		if sc.Racy {
+			sum.RacyRuns++
+		} else if len(sum.Hashes) < hashSample {
 			sum.Hashes[strconv.FormatUint(run, 10)] = res.TraceHash
 		}
 		if res.Harness != "" {
@@ -355,7 +358,7 @@ func TestWorker(t *testing.T) {
 			sum.Samples = append(sum.Samples, s)
 		}
 		// in-process determinism probe: replay the recorded decisions
-		if replayEvery > 0 && k%replayEvery == 0 {
+		if replayEvery > 0 && k%replayEvery == 0 && !sc.Racy {
 			watchdogDeadline.Store(time.Now().Add(runWall).UnixNano())
 			r2 := sim.RunOne(t, sc, sim.NewReplayTape(res.Decisions), false)
 			watchdogDeadline.Store(0)
